@@ -114,13 +114,12 @@ theorem Circle.offset_ok {c : EG.Circle} (ht : W.pt c.tl) (hd : W.size c.d) {o :
   obtain ⟨_, _⟩ := ho
   unfold W.size at hd
   unfold Circle.offset EG.Circle.offset
-  rw [center_ok (by rw [e1]; unfold W.pt W.coord; omega) (by rw [e2]; simp only; omega)]
   by_cases hpos : o ≥ 0
   · simp only [hpos, ↓reduceIte]
+    rw [ptSub_ok (by simp only; omega) (by simp only; omega)]
     chk_simp
-    apply Circle.withCenter_ok (by omega)
-    rw [satAddU32_small (by omega)]; omega
   · simp only [hpos, ↓reduceIte]
+    rw [center_ok (by rw [e1]; unfold W.pt W.coord; omega) (by rw [e2]; simp only; omega)]
     chk_simp
     apply Circle.withCenter_ok (by omega)
     omega
@@ -218,15 +217,12 @@ theorem Ellipse.offset_ok {e : EG.Ellipse} (ht : W.pt e.tl) (hs : W.sz e.size) {
   obtain ⟨_, _⟩ := ho
   unfold W.size at *
   unfold Ellipse.offset EG.Ellipse.offset
-  rw [center_ok (by rw [e1]; unfold W.pt W.coord; omega) (by rw [e2]; omega)]
   by_cases hpos : o ≥ 0
   · simp only [hpos, ↓reduceIte]
+    rw [ptSub_ok (by simp only; omega) (by simp only; omega)]
     chk_simp
-    apply Ellipse.withCenter_ok (by omega)
-    simp only [Sz.satAdd, Sz.newEqual]
-    rw [satAddU32_small (by omega), satAddU32_small (by omega)]
-    omega
   · simp only [hpos, ↓reduceIte]
+    rw [center_ok (by rw [e1]; unfold W.pt W.coord; omega) (by rw [e2]; omega)]
     chk_simp
     apply Ellipse.withCenter_ok (by omega)
     simp only [Sz.satSub, Sz.newEqual]
